@@ -597,7 +597,10 @@ def generate(rng: random.Random, profile: Profile | None = None) -> dict:
             if g.chance(0.8):
                 row['status'] = rng.choice(ILI_STATUSES)
             if g.chance(0.8):
-                row['definition'] = rng.choice(['def of %s (%d)' % (ili, i), 'x', ''])
+                row['definition'] = rng.choice(
+                    ['def of %s (%d)' % (ili, i), 'x', '', '"quoted" start of %s' % ili,
+                     'a "b" c; d', "it's <b> & co", 'trailing quote"', 'été 猫  two  spaces',
+                     ' lead space', '\\N', 'NULL'])
             rows.append(row)
         cols = ['ili']
         if any('status' in r for r in rows):
